@@ -348,7 +348,9 @@ def check_bytes(b: bytes, ctx, cls: str, use_alarm=True, record_case=True):
             p = m.packed
         except ValueError as e:
             names = [q.name for q in m.questions] + [r.name for r in m.answers + m.authorities + m.additionals]
-            why = "empty-label" if any(n.startswith(".") or n.endswith(".") or ".." in n for n in names) else "other"
+            # (the idna codec also splits at the ideographic / fullwidth / halfwidth full stops: same root cause)
+            seps = [n.replace("\u3002", ".").replace("\uff0e", ".").replace("\uff61", ".") for n in names]
+            why = "empty-label" if any(n.startswith(".") or n.endswith(".") or ".." in n for n in seps) else "other"
             ctx.fail("reencode-rejects:" + why, "unpack accepted but packed raised %r; names=%r" % (e, names[:4]))
             return
         except _Timeout:
